@@ -1,0 +1,114 @@
+//go:build verif
+
+package rtpconn
+
+import (
+	"sync/atomic"
+	"time"
+
+	"github.com/pion/rtcp"
+	"github.com/pion/webrtc/v4"
+
+	"github.com/jech/galene/conn"
+	"github.com/jech/galene/estimator"
+)
+
+// This file only exists in builds with the "verif" tag.  It exports
+// handles on unexported types so that an external monitoring harness can
+// drive the real forwarding path; it contains no logic of its own.
+
+// VerifDownTrack wraps an rtpDownTrack.
+type VerifDownTrack struct{ t *rtpDownTrack }
+
+// VerifNewDownTrack builds a down track around a caller-supplied up track
+// and local track, the way addDownTrackUnlocked does, but without a
+// PeerConnection.  Interval is the averaging interval of the rate
+// estimator.
+func VerifNewDownTrack(remote conn.UpTrack, local *webrtc.TrackLocalStaticRTP, ssrc webrtc.SSRC, interval time.Duration) *VerifDownTrack {
+	return &VerifDownTrack{&rtpDownTrack{
+		track:          local,
+		ssrc:           ssrc,
+		remote:         remote,
+		maxBitrate:     new(bitrate),
+		maxREMBBitrate: new(bitrate),
+		stats:          new(receiverStats),
+		rate:           estimator.New(interval),
+		atomics:        &downTrackAtomics{},
+	}}
+}
+
+func (v *VerifDownTrack) Track() conn.DownTrack { return v.t }
+
+func (v *VerifDownTrack) Write(b []byte) (int, error) { return v.t.Write(b) }
+
+func (v *VerifDownTrack) GotNACK(p *rtcp.TransportLayerNack) { gotNACK(v.t, p) }
+
+func (v *VerifDownTrack) UpdateRate(loss uint8, now uint64) { v.t.updateRate(loss, now) }
+
+func (v *VerifDownTrack) HandleReport(r rtcp.ReceptionReport, now uint64) {
+	handleReport(v.t, r, now)
+}
+
+func (v *VerifDownTrack) SetREMB(rate uint64, now uint64) { v.t.maxREMBBitrate.Set(rate, now) }
+
+func (v *VerifDownTrack) AdjustLayer() { v.t.adjustLayer() }
+
+func (v *VerifDownTrack) GetMaxBitrate() (uint64, int, int) { return v.t.GetMaxBitrate() }
+
+// VerifLayer mirrors layerInfo.
+type VerifLayer struct {
+	Sid, WantedSid, MaxSid uint8
+	Tid, WantedTid, MaxTid uint8
+	LimitSid               bool
+}
+
+func (v *VerifDownTrack) Layer() VerifLayer {
+	l := v.t.getLayerInfo()
+	return VerifLayer{
+		l.sid, l.wantedSid, l.maxSid,
+		l.tid, l.wantedTid, l.maxTid,
+		l.limitSid,
+	}
+}
+
+// SetLimitSid does to this track what replaceTracks does to every track
+// of a down connection.
+func (v *VerifDownTrack) SetLimitSid(limitSid bool) {
+	layer := v.t.getLayerInfo()
+	layer.limitSid = limitSid
+	if limitSid {
+		layer.wantedSid = 0
+	}
+	v.t.setLayerInfo(layer)
+}
+
+// Trace points of the receive loop and of the NACK writer.
+const (
+	VerifTraceStored     = iota // a = seqno stored in the cache, b = cache index
+	VerifTraceLoopNACK          // a = first, b = bitmap sent by the receive loop
+	VerifTraceWriterNACK        // a = seqno sent by nackWriter
+)
+
+var verifTraceHook atomic.Pointer[func(ssrc uint32, kind int, a, b uint16)]
+
+// VerifSetTraceHook installs f (nil to remove) as the receiver of trace events.
+func VerifSetTraceHook(f func(ssrc uint32, kind int, a, b uint16)) {
+	if f == nil {
+		verifTraceHook.Store(nil)
+		return
+	}
+	verifTraceHook.Store(&f)
+}
+
+func verifTrace(track *rtpUpTrack, kind int, a, b uint16) {
+	f := verifTraceHook.Load()
+	if f != nil {
+		(*f)(uint32(track.track.SSRC()), kind, a, b)
+	}
+}
+
+func verifTraceSeqnos(track *rtpUpTrack, kind int, seqnos []uint16) {
+	for _, s := range seqnos {
+		verifTrace(track, kind, s, 0)
+	}
+}
